@@ -1,7 +1,7 @@
 (* Properties_C09 — a call that fails has no effect (core model: every modelled entry point, every state).
    Statements only. *)
 From Coq Require Import List NArith Bool.
-From SoftHSM Require Import Gen_Const Gen_Pure Defs Core AccessFacts StepFacts FailFacts.
+From SoftHSM Require Import Gen_Const Gen_Pure Defs Core AccessFacts StepFacts FailFacts Gen_Entry EntryModel.
 Import ListNotations.
 Local Open Scope N_scope.
 
@@ -18,3 +18,18 @@ Print Assumptions C09_failed_call_changes_nothing.
 Theorem C09_failed_calls_are_invisible : forall ops s, exec s ops = exec s (drop_failed s ops).
 Proof. exact failed_calls_are_invisible. Qed.
 Print Assumptions C09_failed_calls_are_invisible.
+
+Theorem C09_destroy_model_is_code : forall (s : state) (h oh : N) (x : session),
+  st_init s = true -> get_session s h = Some x ->
+  rv_of (snd (step s (ODestroy h oh))) = Some (C_DestroyObject.app (destroy_env s h oh x)).
+Proof. exact destroy_model_is_code. Qed.
+Print Assumptions C09_destroy_model_is_code.
+
+Theorem C09_setattr_model_refusal_is_code : forall (s : state) (h oh : N) (x : session) (tm : template) (rest : N),
+  st_init s = true -> get_session s h = Some x ->
+  (match get_object s oh with None => True
+   | Some (_, _, ob) => negb (have_write (sess_state s x) (o_token ob) (o_private ob) =? CKR_OK) = true
+                        \/ obj_bool ob CKA_MODIFIABLE true = false end) ->
+  rv_of (snd (step s (OSetAttr h oh tm))) = Some (C_SetAttributeValue.app (setattr_env s h oh x rest 1 (N.of_nat (length tm)))).
+Proof. exact setattr_model_refusal_is_code. Qed.
+Print Assumptions C09_setattr_model_refusal_is_code.
